@@ -78,7 +78,7 @@ def c14_term(fam, t, st: Stats):
                                   f"the sub-expression {M.show(sub)} has {n_sub} variables but a bare number / Derivative was accepted"))
     # expressions handed back by as_expression(): accepted in place of a one-variable expression exactly when they
     # mention at most one variable (judged by their structure, i.e. by what they print)
-    if nv >= 1 and (M.size(t) <= 3 or fam == "SKEL" or any(c[0] == "const" and c[1] in (0, 1) for c in M.subterms(t))):
+    if nv >= 1 and (M.size(t) <= 3 or fam in ("SKEL", "VANISH") or any(c[0] == "const" and c[1] in (0, 1) for c in M.subterms(t))):
         for v in vs:
             for label, thunk in (("Partial(e, v).as_expression()", lambda: Partial(A.build(t), v).as_expression()),
                                  ("Differential(e, compute_early=True).component(v).as_expression()",
@@ -238,7 +238,8 @@ def run_c14(tier, seed):
 
     def source(pid, tier_):
         ts = F.enum_terms(tier_)
-        return [("ENUM", t) for t in ts] + [("SKEL", t) for t in F.skel_terms(tier_)] + [("NAMES", t) for t in F.names_terms(tier_)]
+        return [("ENUM", t) for t in ts] + [("SKEL", t) for t in F.skel_terms(tier_)] + [("NAMES", t) for t in F.names_terms(tier_)] + \
+            [("VANISH", t) for t in F.vanish_terms(tier_)]
 
     def worker(chunk):
         st = Stats()
